@@ -93,6 +93,9 @@ class CountingSSL:
         return getattr(ssl, name)
 
 
+SERVER_CTXS = {}
+
+
 def server_thread(srv, cert, proxy, out):
     """out: dict filled with first_bytes, tls_established, http_request_seen, error"""
     try:
@@ -111,9 +114,14 @@ def server_thread(srv, cert, proxy, out):
         out["first_bytes"] = first
         conn = srv
         if first[:1] == b"\x16":
-            ctx = ssl.SSLContext(ssl.PROTOCOL_TLS_SERVER)
-            pem = {"ca-good": "good", "ca-other": "other", "self-good": "self_good", "self-other": "self_other"}[cert]
-            ctx.load_cert_chain(os.path.join(FIX, pem + ".pem"), os.path.join(FIX, pem + ".key"))
+            # one server-side context per certificate for the life of the process: a real server keeps its context, so TLS sessions
+            # it handed out can be resumed by a later connection
+            ctx = SERVER_CTXS.get(cert)
+            if ctx is None:
+                ctx = ssl.SSLContext(ssl.PROTOCOL_TLS_SERVER)
+                pem = {"ca-good": "good", "ca-other": "other", "self-good": "self_good", "self-other": "self_other"}[cert]
+                ctx.load_cert_chain(os.path.join(FIX, pem + ".pem"), os.path.join(FIX, pem + ".key"))
+                SERVER_CTXS[cert] = ctx
             try:
                 conn = ctx.wrap_socket(srv, server_side=True)
                 out["tls_established"] = True
@@ -155,7 +163,7 @@ SSL_VERSIONS = {"absent": None, "TLS_CLIENT": ssl.PROTOCOL_TLS_CLIENT, "TLS": ss
 
 
 def run_case(scheme, cert_reqs, check_hostname, trust, server_hostname, server_cert, route, ssl_version="absent", extras=None, via="connect", target="good.test",
-             shared_sslopt=None):
+             shared_sslopt=None, shared_ctx=None):
     """target: the host in the URL - a name, an IPv4 literal or a bracketed IPv6 literal (the fixture certificates carry DNS names only, so a
     certificate never matches an IP-literal target by name)."""
     thost = target.strip("[]")
@@ -185,6 +193,9 @@ def run_case(scheme, cert_reqs, check_hostname, trust, server_hostname, server_c
     elif trust == "context-verify":
         ctx = ssl.SSLContext(ssl.PROTOCOL_TLS_CLIENT)
         ctx.load_verify_locations(os.path.join(FIX, "ca.pem"))
+        if shared_ctx is not None:
+            # the application builds ONE verifying context and passes it to every connection it makes
+            ctx = shared_ctx.setdefault("ctx", ctx)
         sslopt["context"] = ctx
     elif trust == "context-noverify":
         ctx = ssl.SSLContext(ssl.PROTOCOL_TLS_CLIENT)
@@ -409,6 +420,27 @@ def run_task(desc):
                  [("wss", "absent", "absent", "none", "absent", sc, "direct") for sc in SERVER_CERT] + \
                  [("wss", ssl.CERT_REQUIRED, True, "ca_cert_path", "absent", sc, "direct") for sc in SERVER_CERT[:2]] + \
                  [("wss", "absent", "absent", "env-file", "absent", sc, "direct") for sc in SERVER_CERT[:2]]
+        # one caller-supplied verifying context used for two connections to the same address under different names: the second name
+        # is checked against the certificate again (no shortcut through a resumed TLS session or any other memory of the first)
+        for route in ROUTES:
+            for first_t, second_t, cert in (("good.test", "other.test", "ca-good"), ("other.test", "good.test", "ca-other"), ("good.test", "192.0.2.7", "ca-good"), ("good.test", "good.test", "ca-good")):
+                for repeat in (1, 2):
+                    n += 1
+                    shared = {}
+                    args1 = ("wss", "absent", "absent", "context-verify", "absent", cert, route, "absent", None, "connect", first_t)
+                    args2 = ("wss", "absent", "absent", "context-verify", "absent", cert, route, "absent", None, "connect", second_t)
+                    try:
+                        for _ in range(repeat):
+                            run_case(*args1, shared_ctx=shared)
+                        f = run_case(*args2, shared_ctx=shared)
+                    except Exception as e:  # noqa
+                        v = as_violation(e)
+                        if v is None:
+                            raise
+                        f = (v.sig, v.what)
+                    if f is not None:
+                        runner.add_failure(res, dict(f[0], shared_context=True), f[1] + "  [the same caller-supplied context had just been used %d time(s) for %s]" % (repeat, first_t),
+                                           {"sharedctx": [list(args1), list(args2), repeat]})
         for a in FIRST:
             for b in SECOND:
                 n += 1
@@ -498,6 +530,13 @@ def replay(rep):
         shared = {}
         run_case(*rep["shared"][0], shared_sslopt=shared)
         f = run_case(*rep["shared"][1], shared_sslopt=shared)
+        return None if f is None else {"sig": f[0], "what": f[1]}
+    if rep.get("sharedctx"):
+        a1, a2, repeat = rep["sharedctx"]
+        shared = {}
+        for _ in range(repeat):
+            run_case(*a1, shared_ctx=shared)
+        f = run_case(*a2, shared_ctx=shared)
         return None if f is None else {"sig": f[0], "what": f[1]}
     if rep.get("history"):
         run_case(*rep["history"][0])
